@@ -164,6 +164,27 @@ Theorem C07_offsets_closed_under_opp : forall n d,
 Proof. intros n d. split; [apply moore_offsets_opp|apply vn_offsets_opp]. Qed.
 Print Assumptions C07_offsets_closed_under_opp.
 
+(* THE CONNECTION STATEMENT for OrthogonalMooreGrid (moore = true) / OrthogonalVonNeumannGrid (false) as the
+   source builds them (2 axes: the regenerated tables through _connect_single_cell_2d; otherwise the n-D
+   constructions through _connect_single_cell_nd): for every dimension vector, torus flag and cell c, the
+   cell's connections are exactly  d |-> c+d  (wrapped on a torus) for the offsets d of Chebyshev /
+   Manhattan norm 1 whose target lies inside the grid. *)
+Theorem C07_conn_spec_orth : forall moore torus dims c d c', length c = length dims ->
+  (In (d, c') (orth_conns moore torus dims c) <->
+   length d = length dims /\ (if moore then norm_inf d else norm_1 d) = 1 /\
+   c' = (if torus then wrap dims (vadd c d) else vadd c d) /\ in_bounds dims c' = true).
+Proof. apply orth_conns_spec. vm_compute. reflexivity. Qed.
+Print Assumptions C07_conn_spec_orth.
+
+(* cells are identified in observations by their position in all_cells (= itertools.product order):
+   the mixed-radix id of an in-grid coordinate is that position *)
+Theorem C07_cell_ids : forall dims, Forall (fun d => 0 < d) dims ->
+  forall c, length c = length dims -> in_bounds dims c = true ->
+  0 <= coord_id dims c < dims_prod dims /\
+  nth_error (all_coords dims) (Z.to_nat (coord_id dims c)) = Some c.
+Proof. exact coord_id_index. Qed.
+Print Assumptions C07_cell_ids.
+
 (* ---------------------------------------------------------------- hex ------------------------ *)
 (* with the even/odd tables and the parity selector regenerated from HexGrid._connect_cells_2d:
    for EVERY cell (i, j) of Z^2, (di, dj) is one of its offsets iff the hexagons of (i, j) and
@@ -172,6 +193,16 @@ Theorem C07_hex_touching : forall i j di dj,
   In (di, dj) (hex_offsets [i; j]) <-> cube_dist i j (i + di) (j + dj) = 1.
 Proof. apply hex_touching_of_tables. vm_compute. reflexivity. Qed.
 Print Assumptions C07_hex_touching.
+
+(* THE CONNECTION STATEMENT for HexGrid: the connections of cell (i, j) are exactly  (di, dj) |-> (i+di, j+dj)
+   (wrapped on a torus, absent beyond the edge) for the cells whose hexagons touch it *)
+Theorem C07_conn_spec_hex : forall torus h w i j k c',
+  (In (k, c') (hex_conns torus [h; w] [i; j]) <->
+   exists di dj, k = [di; dj] /\ cube_dist i j (i + di) (j + dj) = 1 /\
+     c' = (if torus then wrap [h; w] (vadd [i; j] [di; dj]) else vadd [i; j] [di; dj]) /\
+     in_bounds [h; w] c' = true).
+Proof. apply hex_conns_spec. vm_compute. reflexivity. Qed.
+Print Assumptions C07_conn_spec_hex.
 
 (* hex connections are symmetric without wrapping and on tori whose parity axis has even size *)
 Theorem C07_hex_symmetric : forall torus h w i j di dj c',
@@ -214,6 +245,15 @@ Theorem C07_delaunay_spec : forall pts i j,
                orient a b c <> 0 /\ forall p, In p pts -> strictly_inside a b c p = false).
 Proof. exact delaunay_adj_spec. Qed.
 Print Assumptions C07_delaunay_spec.
+
+(* the integer in-circle test means what it says: with U = circumcentre of a, b, c (the point at equal
+   distance from the three), p is strictly_inside iff p is strictly nearer to U than a is
+   (sdist2 = squared distance to U scaled by (2 * orient a b c)^2, so that everything stays in Z) *)
+Theorem C07_incircle_geometric : forall a b c p, orient a b c <> 0 ->
+  (sdist2 a b c b = sdist2 a b c a /\ sdist2 a b c c = sdist2 a b c a) /\
+  (strictly_inside a b c p = true <-> sdist2 a b c p < sdist2 a b c a).
+Proof. intros a b c p H. split; [exact (circ_equidistant a b c)|exact (strictly_inside_geometric a b c p H)]. Qed.
+Print Assumptions C07_incircle_geometric.
 
 Theorem C07_delaunay_symmetric : forall pts i j, delaunay_adj pts i j = delaunay_adj pts j i.
 Proof. exact delaunay_adj_sym. Qed.
